@@ -53,7 +53,7 @@ def run(ctx):
                'flag-1 points bias the plant by 0.5 e^2/ln10 dex: recovery is compared with the reference fitter on the same data, and the reference with the analytic bound')
     ctx.require_events('pipeline:run', 'recovered:rank1', 'text-row:checked', 'FitInfo.keep:post', 'Filter.rebin:post', 'FitInfo.filter_table:post',
                        'Source.from_ascii:post', 'Extinction.get_av:post')
-    ctx.require_regimes('mode:2d', 'mode:3d', 'style:v1', 'style:v2', 'exact-plant', 'noisy-plant', 'av0:at-bound', 'av0:interior', 'sources-per-file>1')
+    ctx.require_regimes('mode:2d', 'mode:3d', 'style:v1', 'style:v2', 'exact-plant', 'noisy-plant', 'av0:at-bound', 'av0:interior', 'sources-per-file>1', 'plant:with-unused-or-limit-band')
     n_pipe = 10 if ctx.quick else 200
     ip = 0
     tries = 0
@@ -82,7 +82,8 @@ def run(ctx):
                          desc=rng.random(n_m) < 0.5, gz=rng.random(n_m) < 0.2, fmt='D')
             os.rmdir(os.path.join(md, 'convolved'))
         else:
-            pkg.build_v2(md, truth, aperture_dependent=(mode == '3d'), logd_step=step, descending_wav=bool(rng.random() < 0.5))
+            pkg.build_v2(md, truth, aperture_dependent=(mode == '3d'), logd_step=step, descending_wav=bool(rng.random() < 0.5),
+                         unit=str(rng.choice(['mJy', 'mJy', 'Jy'])))
             os.rmdir(os.path.join(md, 'convolved'))
         nf = int(rng.integers(2, 5))
         filters = []
@@ -108,7 +109,8 @@ def run(ctx):
             ctx.violation('pipeline:convolve-raised', 'convolve_model_dir raised: %r' % (exc,), wit0)
             ctx.rmdir(d)
             continue
-        lo, hi = 0.0, float(rng.choice([5.0, 20.0]))
+        lo = float(rng.choice([0.0, 0.0, 2.0, -3.0]))
+        hi = lo + float(rng.choice([5.0, 20.0]))
         if mode == '2d':
             theta = np.ones(nf)
             dr = np.array([1.0, 2.0])
@@ -145,6 +147,16 @@ def run(ctx):
                 valid = np.array([1] * nf)
                 flux = 10.0 ** pred
                 err = flux * e * rng.uniform(0.5, 1.0, nf)
+            if nf >= 3 and rng.random() < 0.4:
+                jx = int(rng.integers(nf))                 # one band does not take part in the fit ...
+                kind_x = int(rng.integers(3))
+                if kind_x == 0:
+                    valid[jx], flux[jx], err[jx] = 0, -999.0, -999.0
+                elif kind_x == 1:
+                    valid[jx], flux[jx], err[jx] = 9, 10.0 ** pred[jx] * 7.0, 1.0
+                else:                                       # ... or is an upper limit well above the plant (satisfied: no penalty)
+                    valid[jx], flux[jx], err[jx] = 3, 10.0 ** (pred[jx] + 1.0), 0.9
+                ctx.regime('plant:with-unused-or-limit-band')
             logf, sig, w = O.transform(valid, flux, err)
             if mode == '2d':
                 a_ref, s_ref, chi_ref = reference_2d(logm, k, logf, w, lo, hi)
@@ -177,8 +189,10 @@ def run(ctx):
                     n_sources=len(plants), output_convolved=oc)
         wsel = [('N', 1), ('N', 3), ('A', 0)][int(rng.integers(3))]
         try:
-            fit(data, [f.name for f in filters], theta * u.arcsec, md, out, n_data_min=1, extinction_law=law, av_range=(lo, hi),
-                distance_range=dr * u.kpc, output_format=sel, output_convolved=oc)
+            aunit = [u.arcsec, u.arcmin, u.deg][int(rng.integers(3))]
+            dunit = [u.kpc, u.pc, u.cm][int(rng.integers(3))] if mode == '2d' else u.kpc      # (3-D: ends must stay exactly on the reference grid)
+            fit(data, [f.name for f in filters], (theta * u.arcsec).to(aunit) if mode == '2d' else theta * u.arcsec, md, out, n_data_min=1,
+                extinction_law=law, av_range=(lo, hi), distance_range=(dr * u.kpc).to(dunit), output_format=sel, output_convolved=oc)
             fin = FitInfoFile(out, 'r')
             recs = list(fin)
             fin.close()
